@@ -357,6 +357,7 @@ def run_table(prot, model, case, acc, work):
                    observed=obs)
     if mode == "e2e" and not problems:
         qref = ref_entry_qvalues(exp)
+        acc.count("e2e_entries_with_qvalue_compared", len(matched))
         for k, o in matched.items():
             a, b = qref[k]
             if not abs(o["q"] - a / b) <= 1e-6:
